@@ -375,6 +375,9 @@ func CheckC15(s Script, tr Trace) error {
 	if !tr.Terminated {
 		return fmt.Errorf("after the divider fault and the release of every in-flight item the discipline did not terminate (%s)", tr.EpilogueStuck)
 	}
+	if tr.FaultBeforeClose && !tr.FaultTermOpenInputs {
+		return fmt.Errorf("after the divider fault and the release of every in-flight item the discipline terminated only once its inputs had been closed as well")
+	}
 	return nil
 }
 
